@@ -22,6 +22,7 @@ import r_family
 import r_chain
 import r_decodelen
 import r_powers
+import r_admit
 import r_outcover
 import r_residue
 import r_tape
@@ -139,6 +140,13 @@ def c05(facts, tier):
         M.check_table(pfm, em, rep, sc, trows)
         nrows += len(trows)
     rep.floor("R-METAFLOW(table)", "switch bookkeeping rows", nrows, 60)
+    # a CKKS switch is refused unless the scale fits the level the RESULT is recorded at (cross-listed from C03, restricted
+    # to the down-chain routines): a test against the source level lets a message through that the target modulus destroys
+    down = lambda p: facts.items.get(p, {}).get("file") == "src/evaluator.rs" and \
+        any(w in facts.items[p]["name"] for w in ("mod_switch", "rescale"))
+    pfc = project.ProjFacts(facts, "CKKS")
+    n = r_meta.check_scale_guard_level(pfc, r_meta.MetaEngine(pfc), rep, "CKKS", down)
+    rep.floor("R-GUARD(scale-level)", "is_scale_within_bounds call sites of the down-chain routines", n, 1)
     # the kernels that drop the last prime: no foreign residue enters the arithmetic of another prime unreduced
     r_resdom.run(facts, rep, {"src/util/rns.rs"}, floor=6)
     return rep
@@ -550,6 +558,7 @@ def c09(facts, tier):
     # the multi-polynomial / multi-component wrappers hand every component to the transform exactly once
     n = r_family.run_poly(facts, rep, only=("ntt", "intt"))
     rep.floor("R-FAMILY(poly)", "ntt/intt _p/_ps wrappers", n, 8)
+    r_admit.run(facts, rep)
     # root determinism (who-may-call + loop shape)
     R = "R-ROOT"
     rep.rule(R, "the random start of try_primitive_root is confined: it is called only from try_minimal_primitive_root, whose "
@@ -655,6 +664,7 @@ def c11(facts, tier):
     r_pair.run_generator(facts, rep)
     n = r_contra.run_onesided_digit(facts, rep, None if tier == "thorough" else {"src/evaluator.rs", "src/util/galois.rs"})
     rep.floor("R-CONTRA(onesided)", "equality tests on NAF digits", n, 0)
+    r_residue.run_encode_sink(facts, rep)
     return rep
 
 
@@ -831,6 +841,7 @@ def c10(facts, tier):
     r_shape.run_baselen(facts, rep)
     r_resdom.run_half(facts, rep, floor=4)
     r_resdom.run_negskip(facts, rep)
+    r_resdom.run_parity(facts, rep)
     return rep
 
 
